@@ -162,7 +162,9 @@ def tlc(module, cfg_text, *, workers=None, env=None, simulate=None,
         cmd += list(extra)
         cmd.append(target)
         e = dict(os.environ)
-        opts = ['-Xss64m', '-DTLA-Library=' + SPEC, '-XX:ParallelGCThreads=%d' % max(2, min(8, int(workers or NCPU)))]
+        # (java.io.tmpdir: TLC leaves an empty tlc-<n> directory there per run)
+        opts = ['-Xss64m', '-DTLA-Library=' + SPEC,
+                '-Djava.io.tmpdir=' + work, '-XX:ParallelGCThreads=%d' % max(2, min(8, int(workers or NCPU)))]
         if deque:
             opts.append('-Dtlc2.tool.queue.IStateQueue=StateDeque')
         e['JAVA_TOOL_OPTIONS'] = ' '.join(opts)
